@@ -1438,7 +1438,7 @@ class Evaluator:
             fr = Frame(None, mi)
             self.frames.append(fr)
             try:
-                return self.eval(node, State())
+                return self.eval(node, State({}, st.heap, (), {}))      # objects a module-level constant holds live in the current heap
             finally:
                 self.frames.pop()
         if kind == 'constattr':
@@ -1446,7 +1446,7 @@ class Evaluator:
             fr = Frame(None, mi)
             self.frames.append(fr)
             try:
-                v = self.eval(node, State())
+                v = self.eval(node, State({}, st.heap, (), {}))
             finally:
                 self.frames.pop()
             for a_ in attrs:
